@@ -824,6 +824,8 @@ impl<'w> Ctx<'w> {
             if v.eff { return Err("effectful closure argument".into()); }
             if self.is_int(pty) { self.unify(&v.ty, pty)?; }
             if mentions_ident(a, &cname) { return Err("closure argument mentions the closure parameter".into()); }
+            // the closure may run later than it is built: what it captures must not change in between
+            if self.local_muts.iter().any(|m| mentions_ident(a, m)) { return Err("closure captures a mutable variable".into()); }
             argv.push(paren(&v.s));
         }
         let c = lean_ident(&cname);
